@@ -38,7 +38,8 @@ const Type& POWExpression::type(Context &ctx) const
     return Value::type_imaginary;
   if (t0 == Type::INTEGER && t1 == Type::INTEGER)
     return Value::type_integer;
-  if (t0 == Type::NUMERIC || t1 == Type::NUMERIC)
+  /* with an opaque argument the result may as well be complex */
+  if ((t0 == Type::NUMERIC && !(t1 == Type::NO_TYPE)) || (t1 == Type::NUMERIC && !(t0 == Type::NO_TYPE)))
     return Value::type_numeric;
   return Value::type_no_type;
 }
